@@ -14,6 +14,7 @@ package store
 // the Lean model) and checked against independent Go bookkeeping (monitor).
 
 import (
+	"encoding/binary"
 	"errors"
 	"fmt"
 	"io"
@@ -27,6 +28,7 @@ import (
 
 	"github.com/mgtv-tech/redis-GunYu/config"
 	"github.com/mgtv-tech/redis-GunYu/pkg/common"
+	"github.com/mgtv-tech/redis-GunYu/pkg/digest"
 	"github.com/mgtv-tech/redis-GunYu/pkg/vfutil"
 )
 
@@ -100,6 +102,7 @@ type vfDisk struct {
 	snapDone bool   // snapshot completely written (and writer finished)
 	snapLive bool   // snapshot writer still open
 	haveSnap bool
+	snapPlan []byte // bytes the generator will feed to the snapshot writer
 	sgen     int             // incremented when a snapshot is created or lost
 	past     map[int]*vfHist // histories of earlier generations (readers opened then)
 	// live objects
@@ -233,6 +236,17 @@ func (d *vfDisk) hbaseHeld() int64 {
 		return d.right() + 1
 	}
 	return ds.aofSegs[0].left
+}
+
+// vfFooterOk: RDB files of more than 8 bytes end with the little-endian CRC64
+// of everything before.
+func vfFooterOk(b []byte) bool {
+	if len(b) <= 8 {
+		return true
+	}
+	c := digest.New()
+	c.Write(b[:len(b)-8])
+	return binary.LittleEndian.Uint64(b[len(b)-8:]) == c.Sum64()
 }
 
 func vfDash(s string) string {
@@ -502,7 +516,10 @@ func (d *vfDisk) opOpen(off int64, crc bool) {
 	}
 	if err != nil {
 		d.emit(op, "err "+vfErrClass(err))
-		if valid {
+		if crc && errors.Is(err, common.ErrCorrupted) && d.haveSnap && d.snapDone && !vfFooterOk(d.snap) {
+			// checksum verification refuses a snapshot without a correct footer
+			d.s.Count("open_rdb_crc_refused")
+		} else if valid {
 			d.s.Violate("valid-not-readable", fmt.Sprintf("IsValidOffset(%d)=true but GetReader(%d,crc=%v) failed: %v", off, off, crc, err),
 				d.replay(map[string]interface{}{"offset": off, "crc": crc}))
 		}
@@ -549,9 +566,26 @@ func (d *vfDisk) histOf(vr *vfDReader) *vfHist {
 	return d.past[vr.gen]
 }
 
-func (d *vfDisk) opRead(rid int, n int) {
+func (d *vfDisk) opRead(rid int, n int) { d.opReadX(rid, n, false) }
+
+// opReadX with gcInWindow: the collector pass is forced into the reader's
+// rotation step, right after the reader's close observer for the old segment
+// ran (the interleaving of D17: in the unrepaired order the reader holds no
+// reference at that instant).
+func (d *vfDisk) opReadX(rid int, n int, gcInWindow bool) {
 	vr := d.readers[rid]
 	op := fmt.Sprintf("dread %d %d", rid, n)
+	if gcInWindow && vr.isAof {
+		op = fmt.Sprintf("dreadgc %d %d", rid, n)
+		rr := vr.rd.aof
+		orig := *rr.observer.Load()
+		rr.SetObserver(&observerProxy{open: orig.Open, close: func(a ...interface{}) {
+			orig.Close(a...)
+			d.st.VerifGcLog()
+			d.s.Count("gc_forced_into_rotation_step")
+		}})
+		defer rr.SetObserver(orig)
+	}
 	buf := make([]byte, n)
 	var got int
 	var err error
@@ -737,7 +771,8 @@ func (d *vfDisk) step() bool {
 			if r.Chance(1, 3) {
 				n = rem
 			}
-			d.opRdbAppend(r.Bytes(int(n)))
+			at := int64(len(d.snap))
+			d.opRdbAppend(d.snapPlan[at : at+n])
 			d.s.Count("op_rdb_append")
 		})
 		add(2, func() { d.opRdbClose(); d.s.Count("op_rdb_close_early") })
@@ -747,7 +782,15 @@ func (d *vfDisk) step() bool {
 			d.opAofClose()
 			d.observe()
 		}
-		d.opRdbWriter(int64(100+r.Intn(900)), int64(1+r.Intn(120)))
+		size := 1 + r.Intn(120)
+		d.opRdbWriter(int64(100+r.Intn(900)), int64(size))
+		// two thirds of the snapshots carry a correct RDB checksum footer
+		d.snapPlan = r.Bytes(size)
+		if size >= 9 && r.Chance(2, 3) {
+			c := digest.New()
+			c.Write(d.snapPlan[:size-8])
+			binary.LittleEndian.PutUint64(d.snapPlan[size-8:], c.Sum64())
+		}
 		d.s.Count("op_rdb_writer")
 	})
 	add(8, func() { d.opGc(); d.s.Count("op_gc") })
@@ -776,7 +819,7 @@ func (d *vfDisk) step() bool {
 		add(30, func() {
 			rid := vfutil.Pick(r, readable)
 			n := 1 + r.Intn(int(d.logSize)+8)
-			d.opRead(rid, n)
+			d.opReadX(rid, n, r.Chance(1, 4))
 			d.s.Count("op_read")
 		})
 	}
@@ -900,9 +943,9 @@ func (d *vfDisk) runScript(script string) {
 		case "dopen":
 			d.nextRid = int(num(1))
 			d.opOpen(num(2), num(3) == 1)
-		case "dread":
+		case "dread", "dreadgc":
 			if _, ok := d.readers[int(num(1))]; ok {
-				d.opRead(int(num(1)), int(num(2)))
+				d.opReadX(int(num(1)), int(num(2)), f[0] == "dreadgc")
 			}
 		case "dclose":
 			if _, ok := d.readers[int(num(1))]; ok {
